@@ -466,3 +466,192 @@ fn parse_script(s: &str) -> Script {
         Script::Idle
     }
 }
+
+// ---------------------------------------------------------------------------------------------
+// C03 node level: the protocol agreed on a real substream is the dialer's most preferred name
+// that the listener supports, and both ends report that same name (fallback mapping of
+// `ProtocolSet`, proposal order of `TcpConnection::open_substream`).
+// ---------------------------------------------------------------------------------------------
+
+const C03_NAMES: [&str; 4] = ["/c03/n/4", "/c03/n/3", "/c03/n/2", "/c03/n/1"];
+
+#[derive(Debug)]
+struct FbOut {
+    /// name reported by the listener's validation prompt
+    listener_reported: Option<String>,
+    /// name reported by the dialer's stream-opened event
+    dialer_reported: Option<String>,
+    dialer_open_failure: bool,
+    listener_opened: bool,
+}
+
+async fn c03_fallback_case(seed: u64, exec: &ChaosExecutor, dialer_list: Vec<usize>, listener_list: Vec<usize>) -> Result<FbOut, String> {
+    use futures::StreamExt;
+    use litep2p::{
+        protocol::notification::{Config as NotifConfig, NotificationEvent, ValidationResult},
+        types::protocol::ProtocolName,
+    };
+    let mut rng = Rng::new(seed);
+    let mk = |names: &Vec<usize>, s: u64| {
+        let cfg = mk_cfg(s, Duration::from_secs(20));
+        let main = ProtocolName::from(C03_NAMES[names[0]]);
+        let fallbacks: Vec<ProtocolName> = names[1..].iter().map(|i| ProtocolName::from(C03_NAMES[*i])).collect();
+        let (nc, nh) = NotifConfig::new(main, 1024, vec![9, 9], fallbacks, false, 64, 64, false);
+        (cfg.builder(exec).with_notification_protocol(nc), nh)
+    };
+    let (ba, mut ha) = mk(&dialer_list, rng.u64());
+    let (bb, mut hb) = mk(&listener_list, rng.u64());
+    let a = Node::spawn(ba)?;
+    let b = Node::spawn(bb)?;
+    let (pa, pb) = (a.peer, b.peer);
+    a.dial_address(b.addr.clone()).await?;
+    if !wait_until(Instant::now() + Duration::from_secs(5), || est_count(&a, &pb) > 0 && est_count(&b, &pa) > 0).await {
+        return Err("not connected".into());
+    }
+    tokio::time::sleep(Duration::from_millis(50)).await;
+    ha.open_substream(pb).await.map_err(|e| format!("open_substream: {e:?}"))?;
+    let mut out = FbOut { listener_reported: None, dialer_reported: None, dialer_open_failure: false, listener_opened: false };
+    let end = tokio::time::Instant::now() + Duration::from_secs(6);
+    loop {
+        tokio::select! {
+            e = ha.next() => match e {
+                Some(NotificationEvent::NotificationStreamOpened { protocol, fallback, .. }) => {
+                    out.dialer_reported = Some(fallback.unwrap_or(protocol).to_string());
+                }
+                Some(NotificationEvent::NotificationStreamOpenFailure { .. }) => out.dialer_open_failure = true,
+                Some(NotificationEvent::ValidateSubstream { peer, .. }) => ha.send_validation_result(peer, ValidationResult::Accept),
+                Some(_) => {}
+                None => break,
+            },
+            e = hb.next() => match e {
+                Some(NotificationEvent::ValidateSubstream { protocol, fallback, peer, .. }) => {
+                    out.listener_reported = Some(fallback.unwrap_or(protocol).to_string());
+                    hb.send_validation_result(peer, ValidationResult::Accept);
+                }
+                Some(NotificationEvent::NotificationStreamOpened { .. }) => out.listener_opened = true,
+                Some(_) => {}
+                None => break,
+            },
+            _ = tokio::time::sleep_until(end) => break,
+        }
+        if out.dialer_open_failure || (out.dialer_reported.is_some() && out.listener_opened) {
+            break;
+        }
+    }
+    Ok(out)
+}
+
+pub fn c03_node_level(ctx: &Ctx, rep: &mut Report) {
+    let rt = tokio::runtime::Builder::new_multi_thread().worker_threads(3).enable_all().build().expect("runtime");
+    // all (dialer list, listener list) with 1-3 distinct names out of 4, ordered
+    let mut lists: Vec<Vec<usize>> = Vec::new();
+    for a in 0..4 {
+        lists.push(vec![a]);
+        for b in 0..4 {
+            if b != a {
+                lists.push(vec![a, b]);
+                for c in 0..4 {
+                    if c != a && c != b {
+                        lists.push(vec![a, b, c]);
+                    }
+                }
+            }
+        }
+    }
+    let mut cases: Vec<(Vec<usize>, Vec<usize>, u64)> = Vec::new();
+    if let Some(path) = &ctx.replay {
+        let v: Value = serde_json::from_slice(&std::fs::read(path).expect("replay")).expect("json");
+        let r = &v["replay"];
+        let l = |k: &str| r[k].as_array().map(|a| a.iter().filter_map(|x| x.as_u64().map(|x| x as usize)).collect::<Vec<_>>()).unwrap_or_default();
+        cases.push((l("dialer"), l("listener"), r["seed"].as_u64().unwrap_or(1)));
+    } else {
+        let mut rng = ctx.rng("c03-node");
+        let mut idx = 0u64;
+        let stride = ctx.pick(23u64, 3);
+        for d in &lists {
+            for l in &lists {
+                idx += 1;
+                if idx % stride != (ctx.seed % stride) || !ctx.mine(idx / stride) {
+                    continue;
+                }
+                cases.push((d.clone(), l.clone(), rng.u64()));
+            }
+        }
+    }
+    rt.block_on(async {
+        use futures::StreamExt;
+        let exec = ChaosExecutor::new(tokio::runtime::Handle::current(), ctx.seed, 0.0);
+        let mut running = futures::stream::FuturesUnordered::new();
+        let mut it = cases.into_iter();
+        loop {
+            while running.len() < 6 {
+                match it.next() {
+                    Some((d, l, seed)) => {
+                        let exec = exec.clone();
+                        running.push(async move {
+                            let r = c03_fallback_case(seed, &exec, d.clone(), l.clone()).await;
+                            (d, l, seed, r)
+                        });
+                    }
+                    None => break,
+                }
+            }
+            let Some((d, l, seed, r)) = running.next().await else { break };
+            rep.case(&("node-fallback", &d, &l), true);
+            let replay = json!({"family": "node-fallback", "dialer": d, "listener": l, "seed": seed});
+            let expected = d.iter().find(|n| l.contains(n)).map(|n| C03_NAMES[*n].to_string());
+            // the listener opens the reverse substream with its own list: it must intersect too
+            let reverse_ok = l.iter().any(|n| d.contains(n));
+            match r {
+                Err(e) => {
+                    rep.hit("node_fallback_setup_failed");
+                    let _ = e;
+                }
+                Ok(o) => match expected {
+                    None => {
+                        if o.listener_reported.is_some() || o.dialer_reported.is_some() {
+                            rep.violation("C03/node/agreed-without-common-protocol", format!("dialer offers {d:?}, listener supports {l:?}: {o:?}"), replay);
+                        } else if o.dialer_open_failure {
+                            rep.hit("node_fallback_both_failed");
+                        } else {
+                            rep.hit("node_fallback_no_outcome_within_window");
+                        }
+                    }
+                    Some(x) => {
+                        match &o.listener_reported {
+                            Some(got) if *got == x => rep.hit("node_fallback_listener_reports_expected"),
+                            Some(got) => rep.violation(
+                                "C03/node/listener-reports-other-protocol",
+                                format!("dialer offers {:?}, listener supports {:?}: expected {x}, listener reported {got}", names(&d), names(&l)),
+                                replay.clone(),
+                            ),
+                            None => rep.violation(
+                                "C03/node/no-agreement-although-sets-intersect",
+                                format!("dialer offers {:?}, listener supports {:?}: expected {x}, listener saw no substream ({o:?})", names(&d), names(&l)),
+                                replay.clone(),
+                            ),
+                        }
+                        if reverse_ok {
+                            match &o.dialer_reported {
+                                Some(got) if *got == x => rep.hit("node_fallback_dialer_reports_expected"),
+                                Some(got) => rep.violation(
+                                    "C03/node/dialer-reports-other-protocol",
+                                    format!("dialer offers {:?}, listener supports {:?}: expected {x}, dialer reported {got}", names(&d), names(&l)),
+                                    replay,
+                                ),
+                                None => rep.hit("node_fallback_stream_not_opened"),
+                            }
+                        }
+                    }
+                },
+            }
+        }
+    });
+    rep.floor("node_fallback_listener_reports_expected", 20);
+    rep.floor("node_fallback_dialer_reports_expected", 15);
+    rep.floor("node_fallback_both_failed", 3);
+}
+
+fn names(l: &[usize]) -> Vec<&'static str> {
+    l.iter().map(|i| C03_NAMES[*i]).collect()
+}
